@@ -245,19 +245,29 @@ theorem EvR.getS_bind {β : Type} {f : Sc → S β} {u : Sc} {R : β → Sc → 
 
 /-- what the token of the scalar must be: literal style, the chomped lines, from line `L`, column `ind`
     to column 0 of line `L'` -/
-def IsLit (tok : Token) (text : Str) (L ind L' : Nat) (startRest stopRest N : Nat) : Prop :=
-  tok.ty = .scalar .literal text ∧ tok.span.start.line = L ∧ tok.span.start.col = ind ∧
+def IsTok (lit : Bool) (tok : Token) (text : Str) (L ind L' : Nat) (startRest stopRest N : Nat) : Prop :=
+  tok.ty = .scalar (if lit then ScalarStyle.literal else ScalarStyle.folded) text ∧ tok.span.start.line = L ∧ tok.span.start.col = ind ∧
   tok.span.stop.line = L' ∧ tok.span.stop.col = 0 ∧
   tok.span.start.index + startRest = N ∧ tok.span.stop.index + stopRest = N
 
+abbrev IsLit := IsTok true
+
+/-- what the content part must deliver: the token from the first content line on -/
+def ContentOk (lit : Bool) (ch : Chomping) (ind : Nat) (text : Str) (X tail : Str) (k : Nat) (N : Nat) : Prop :=
+  ∀ (u4 : Sc) (L : Nat) (I : Int), At u4 X L ind I N →
+    EvR (blockContent lit ch ind [] u4) u4 (fun tok u' =>
+      tok = ⟨⟨u4.mark, u'.mark⟩, .scalar (if lit then ScalarStyle.literal else ScalarStyle.folded) text⟩ ∧
+      Pos u' tail (L + k + 1) 0 N)
+
 /-- after the header line, indentation auto-detected from the first content line -/
-theorem ev_blockAfterHeader (sm : Marker) (ch : Chomping) (cb : Str) (ind : Nat) (hind : ind ≠ 0) (tail : Str)
-    (ht1 : tail.headD '\x00' ≠ ' ') (ht2 : isBreak (tail.headD '\x00') = false) (ls : List (Str × Brk)) (l : Str) (b : Brk)
-    (hl : GoodLine l) (hl1 : l.headD '\x00' ≠ ' ') (hls : ∀ p ∈ ls, GoodLine p.1) (u : Sc) (L : Nat) (I : Int) (N : Nat)
+theorem ev_blockAfterHeader (lit : Bool) (text : Str) (sm : Marker) (ch : Chomping) (cb : Str) (ind : Nat) (hind : ind ≠ 0) (tail : Str)
+    (ls : List (Str × Brk)) (l : Str) (b : Brk)
+    (hl : GoodLine l) (hl1 : l.headD '\x00' ≠ ' ') (u : Sc) (L : Nat) (I : Int) (N : Nat)
     (hI : (I + 1).toNat ≤ ind)
+    (hcontent : ContentOk lit ch ind text (l ++ (b.txt ++ restLinesB ind ls tail)) tail ls.length N)
     (h : At u (List.replicate ind ' ' ++ (l ++ (b.txt ++ restLinesB ind ls tail))) L 0 I N) :
-    EvR (blockAfterHeader true sm ch 0 cb) u (fun tok u' =>
-      IsLit tok (chomped ch (joinB l ls)) L ind (L + ls.length + 1)
+    EvR (blockAfterHeader lit sm ch 0 cb) u (fun tok u' =>
+      IsTok lit tok text L ind (L + ls.length + 1)
         (l ++ (b.txt ++ restLinesB ind ls tail)).length tail.length N ∧ Pos u' tail (L + ls.length + 1) 0 N) := by
   obtain ⟨c0, l0, rfl⟩ : ∃ c0 l0, l = c0 :: l0 := by
     cases l with
@@ -283,7 +293,7 @@ theorem ev_blockAfterHeader (sm : Marker) (ch : Chomping) (cb : Str) (ind : Nat)
   intro u4 h4
   simp only [List.cons_append, ans, hc0.2, Bool.false_eq_true, ↓reduceIte]
   apply EvR.getS_bind
-  refine EvR.mono (ev_blockContent ch (n + 1) hind tail ht1 ht2 ls (c0 :: l0) b hl hls u4 L I N h4) ?_
+  refine EvR.mono (hcontent u4 L I h4) ?_
   intro tok u' ⟨htok, hpos⟩
   refine ⟨?_, hpos⟩
   subst htok
@@ -355,13 +365,14 @@ theorem ev_skipWsToEol (b0 : Brk) (R : Str) (u : Sc) (L C : Nat) (I : Int) (N : 
     either runs out of the fuel it was given or returns the token of a literal scalar whose text is the lines
     joined by line feeds, chomped as the header says, spanning from the first content line to column 0 of the
     line after the last one. -/
-theorem literal_block_token (sm : Marker) (hd : Hdr) (b0 : Brk) (ind : Nat) (hind : ind ≠ 0) (tail : Str)
-    (ht1 : tail.headD '\x00' ≠ ' ') (ht2 : isBreak (tail.headD '\x00') = false) (ls : List (Str × Brk)) (l : Str) (b : Brk)
-    (hl : GoodLine l) (hl1 : l.headD '\x00' ≠ ' ') (hls : ∀ p ∈ ls, GoodLine p.1) (u : Sc) (L C : Nat) (I : Int) (N : Nat)
+theorem block_token (lit : Bool) (text : Str) (sm : Marker) (hd : Hdr) (b0 : Brk) (ind : Nat) (hind : ind ≠ 0) (tail : Str)
+    (ls : List (Str × Brk)) (l : Str) (b : Brk)
+    (hl : GoodLine l) (hl1 : l.headD '\x00' ≠ ' ') (u : Sc) (L C : Nat) (I : Int) (N : Nat)
     (hI : (I + 1).toNat ≤ ind)
+    (hcontent : ContentOk lit hd.chomp ind text (l ++ (b.txt ++ restLinesB ind ls tail)) tail ls.length N)
     (h : At u (hd.txt ++ (b0.txt ++ (List.replicate ind ' ' ++ (l ++ (b.txt ++ restLinesB ind ls tail))))) L C I N) :
-    EvR (scanBlockScalarBody true sm) u (fun tok u' =>
-      IsLit tok (chomped hd.chomp (joinB l ls)) (L + 1) ind (L + 1 + ls.length + 1)
+    EvR (scanBlockScalarBody lit sm) u (fun tok u' =>
+      IsTok lit tok text (L + 1) ind (L + 1 + ls.length + 1)
         (l ++ (b.txt ++ restLinesB ind ls tail)).length tail.length N ∧
       Pos u' tail (L + 1 + ls.length + 1) 0 N) := by
   generalize hR : List.replicate ind ' ' ++ (l ++ (b.txt ++ restLinesB ind ls tail)) = R at h
@@ -404,6 +415,18 @@ theorem literal_block_token (sm : Marker) (hd : Hdr) (b0 : Brk) (ind : Nat) (hin
   apply EvR.bindEv hcbk
   intro u9 h9
   rw [← hR] at h9
-  exact ev_blockAfterHeader sm hd.chomp ['\n'] ind hind tail ht1 ht2 ls l b hl hl1 hls u9 (L + 1) I N hI h9
+  exact ev_blockAfterHeader lit text sm hd.chomp ['\n'] ind hind tail ls l b hl hl1 u9 (L + 1) I N hI hcontent h9
+
+theorem literal_block_token (sm : Marker) (hd : Hdr) (b0 : Brk) (ind : Nat) (hind : ind ≠ 0) (tail : Str)
+    (ht1 : tail.headD '\x00' ≠ ' ') (ht2 : isBreak (tail.headD '\x00') = false) (ls : List (Str × Brk)) (l : Str) (b : Brk)
+    (hl : GoodLine l) (hl1 : l.headD '\x00' ≠ ' ') (hls : ∀ p ∈ ls, GoodLine p.1) (u : Sc) (L C : Nat) (I : Int) (N : Nat)
+    (hI : (I + 1).toNat ≤ ind)
+    (h : At u (hd.txt ++ (b0.txt ++ (List.replicate ind ' ' ++ (l ++ (b.txt ++ restLinesB ind ls tail))))) L C I N) :
+    EvR (scanBlockScalarBody true sm) u (fun tok u' =>
+      IsLit tok (chomped hd.chomp (joinB l ls)) (L + 1) ind (L + 1 + ls.length + 1)
+        (l ++ (b.txt ++ restLinesB ind ls tail)).length tail.length N ∧
+      Pos u' tail (L + 1 + ls.length + 1) 0 N) :=
+  block_token true _ sm hd b0 ind hind tail ls l b hl hl1 u L C I N hI
+    (fun u4 L' I' h4 => ev_blockContent hd.chomp ind hind tail ht1 ht2 ls l b hl hls u4 L' I' N h4) h
 
 end SaphyrModel.C05T
